@@ -42,6 +42,9 @@ type fatCfg struct {
 	Sector int64  `json:"sector"`
 	Names  string `json:"names"`
 	Repro  bool   `json:"repro"`
+	// Preload: bytes written to BIG.BIN right after Create so that later allocations get
+	// high cluster numbers (>= 65536 on FAT32); BIG.BIN is not part of the path universe
+	Preload int64 `json:"preload,omitempty"`
 }
 
 // name sets: model path -> real name (lookups may use a case variant)
@@ -86,6 +89,11 @@ func newFatRun(cfg fatCfg, sha, raw bool) (*fatRun, map[string]any, error) {
 	}
 	devSize := cfg.Start + cfg.Size + 1<<20
 	d := memdev.NewPattern(devSize)
+	if sha {
+		// images are compared between volumes at different offsets: the never-written
+		// background must not depend on the position
+		d = memdev.New(devSize)
+	}
 	d.FailOutside = []memdev.Range{{Off: cfg.Start, Len: cfg.Size}}
 	vol, err := fsx.CreateOn(cfg.Kind, d, fsx.Opt{Start: cfg.Start, Size: cfg.Size, Sector: cfg.Sector, Repro: cfg.Repro, Label: "VERIF"})
 	if err != nil {
@@ -93,6 +101,11 @@ func newFatRun(cfg fatCfg, sha, raw bool) (*fatRun, map[string]any, error) {
 	}
 	r.vol = vol
 	r.B = vol.Block
+	if cfg.Preload > 0 {
+		if err := fsx.WriteFile(vol.FS, "BIG.BIN", fsx.Content(99, int(cfg.Preload))); err != nil {
+			return nil, nil, fmt.Errorf("preload: %w", err)
+		}
+	}
 	ev := r.event(fatOp{A: "Reset"}, "ok", "", nil)
 	ev["cfg"] = cfg
 	return r, ev, nil
@@ -155,7 +168,7 @@ func (r *fatRun) project(fs filesystem.FileSystem) (map[string]any, []string) {
 	for _, p := range fatPaths {
 		tree[p] = map[string]any{"kind": "none"}
 	}
-	walked, err := fsx.Walk(fs, 64<<20)
+	walked, err := fsx.WalkSkip(fs, 64<<20, func(p string) bool { return p == "BIG.BIN" })
 	if err != nil {
 		for _, p := range fatPaths {
 			tree[p] = map[string]any{"kind": "error"}
@@ -164,6 +177,9 @@ func (r *fatRun) project(fs filesystem.FileSystem) (map[string]any, []string) {
 	}
 	extra := []string{}
 	for name, n := range walked {
+		if name == "BIG.BIN" && r.cfg.Preload > 0 {
+			continue
+		}
 		p, ok := r.rev[name]
 		if !ok {
 			extra = append(extra, name)
@@ -195,7 +211,7 @@ func (r *fatRun) rawProjection() map[string]any {
 	v, err := rawfat.Parse(r.vol.Dev, r.cfg.Start, r.cfg.Size)
 	if err != nil {
 		return map[string]any{"ok": false, "err": err.Error(), "type": "", "ncl": 0, "cb": 0, "bootok": false, "fitsrange": false, "backupeq": false, "fsinfook": false, "fsinfofreeok": false,
-			"fatseq": false, "ents": []any{}, "used": []int{}, "beyond": []int{}, "rootchain": []int{}, "rootbad": "parse", "problems": []string{err.Error()}, "free": 0}
+			"fatseq": false, "ents": []any{}, "used": [][2]int{}, "beyond": []int{}, "rootchain": [][2]int{}, "rootbad": "parse", "problems": []string{err.Error()}, "free": 0}
 	}
 	ents := []any{}
 	for _, e := range v.Entries {
@@ -203,25 +219,27 @@ func (r *fatRun) rawProjection() map[string]any {
 		for i, c := range e.Chain {
 			ch[i] = int(c)
 		}
-		ents = append(ents, map[string]any{"path": e.Path, "dir": e.IsDir, "first": int(e.First), "size": int(e.Size), "chain": ch, "bad": e.Bad, "lfnbad": e.LFNBad})
+		ents = append(ents, map[string]any{"path": e.Path, "dir": e.IsDir, "first": int(e.First), "size": int(e.Size), "chain": toRanges(ch), "clen": len(ch), "bad": e.Bad, "lfnbad": e.LFNBad})
 	}
-	used := []int{}
+	usedList := []int{}
 	free := 0
 	for c := 2; c < len(v.FAT); c++ {
 		if v.FAT[c] != 0 {
-			used = append(used, c)
+			usedList = append(usedList, c)
 		} else {
 			free++
 		}
 	}
+	used := toRanges(usedList)
 	beyond := []int{}
 	for _, c := range v.Beyond {
 		beyond = append(beyond, int(c))
 	}
-	root := []int{}
+	rootList := []int{}
 	for _, c := range v.RootChain {
-		root = append(root, int(c))
+		rootList = append(rootList, int(c))
 	}
+	root := toRanges(rootList)
 	probs := v.Problems
 	if probs == nil {
 		probs = []string{}
@@ -510,3 +528,19 @@ func fatTraceBytes(behs [][]map[string]any) ([]byte, []int) {
 func shaHex(b []byte) string { h := sha256.Sum256(b); return hex.EncodeToString(h[:8]) }
 
 var _ = strings.ToLower
+
+// toRanges encodes a set of cluster numbers as sorted, merged [lo,hi] ranges (the C08
+// predicates only use chains as sets plus their length).
+func toRanges(xs []int) [][2]int {
+	ys := append([]int(nil), xs...)
+	sort.Ints(ys)
+	out := [][2]int{}
+	for _, x := range ys {
+		if n := len(out); n > 0 && (x == out[n-1][1]+1 || x == out[n-1][1]) {
+			out[n-1][1] = x
+			continue
+		}
+		out = append(out, [2]int{x, x})
+	}
+	return out
+}
